@@ -15,7 +15,7 @@ PLAN = {
                                                     ("BFS_Snap", 0, 60000, 8, False),
                                                     # every short history of re-creating / updating one subscription name with other filters
                                                     ("BFS_Recreate", 0, 0, 6, False)]},
-    "C02": {"mc": ["MC_Lease", "MC_Names"], "gen": [("Gen_Mixed", 160, 4000, 25, True), ("Gen_Names", 60, 1500, 32, True), ("Gen_Snap", 60, 1500, 30, True), ("BFS_Recreate", 0, 0, 6, False)]},
+    "C02": {"mc": ["MC_Lease", "MC_Names"], "gen": [("Gen_Mixed", 160, 4000, 25, True), ("Gen_Names", 60, 1500, 32, True), ("Gen_Snap", 60, 1500, 30, True), ("BFS_Recreate", 0, 0, 6, False), ("BFS_RecreateTopic", 0, 0, 6, False)]},
     "C03": {"mc": ["MC_Lease", "MC_DeadLetter"], "gen": [("Gen_Mixed", 120, 3000, 25, True), ("Gen_Ordered", 60, 1500, 30, True), ("Gen_DeadLetter", 60, 1500, 32, True),
                                                          # every short history of publish / pull / ack / sweep / clock step on a dead-lettering subscription
                                                          ("BFS_DLAck", 0, 0, 9, False)]},
@@ -29,7 +29,9 @@ PLAN = {
     "C06": {"mc": ["MC_DeadLetter"], "gen": [("Gen_DeadLetter", 240, 6000, 32, True), ("Gen_Mixed", 60, 1500, 25, True), ("BFS_DL", 0, 0, 8, False),
                                              # shared dead-letter targets: fan-in of two sources, self-loop
                                              ("BFS_DLFan", 0, 0, 11, False)]},
-    "C12": {"mc": ["MC_Names"], "gen": [("Gen_Names", 300, 6000, 32, False)]},
+    "C12": {"mc": ["MC_Names"], "gen": [("Gen_Names", 300, 6000, 32, False),
+                                       # every short history of deleting / re-creating one topic name under a surviving subscription
+                                       ("BFS_RecreateTopic", 0, 0, 6, False)]},
     "C13": {"mc": ["MC_Seek"], "impl": ["MC_ImplSnap"], "impl_thorough": ["MC_ImplSnap_thorough", "MC_ImplSeek"], "gen": [("Gen_Seek", 120, 4000, 32, True), ("Gen_Snap", 80, 4000, 30, True), ("BFS_Snap", 0, 60000, 8, False)]},
     "C14": {"mc": ["MC_Timing"], "gen": [("Gen_Timing", 260, 6000, 30, True),
                                         # retention restarted by a seek that revives a message (to a time, to a snapshot)
